@@ -170,6 +170,8 @@ class Unit:
         out.append('#line %d "%s"\n' % (self.p2_line, self.path))
         out.append(self.part2)
         out.append('#line 1 "generated-code"\n')
+        for nm in sorted(getattr(L, 'array_reads', ())):
+            out.append('#ifndef ARR_RD_%s\n#define ARR_RD_%s(a, i) ((a)[i])\n#endif\n' % (nm, nm))
         loops = []
         for cname, fi in L.fns.items():
             for lp in fi.loops:
@@ -297,7 +299,18 @@ class Unit:
         try:
             msgs = json.loads(r.stdout)
         except Exception:
-            return 'UNDECIDED', 'cbmc output not JSON (crash / out of memory): ' + (r.stdout[-300:] + r.stderr[-300:]).replace('\n', ' '), [], log, dt
+            # CBMC 6.11's JSON printer aborts on some large expressions: same run in text mode, results parsed from the text
+            cbt = [x for x in cb if x not in ('--json-ui',)]
+            try:
+                r2 = subprocess.run(['bash', '-c', 'ulimit -v 12000000; exec "$@"', '_'] + cbt, capture_output=True, text=True, timeout=tmo)
+            except subprocess.TimeoutExpired:
+                return 'UNDECIDED', 'cbmc timeout after %ds (text mode)' % tmo, [], log, time.time() - t0
+            dt = time.time() - t0
+            open(os.path.join(self.dir, tag + '.cbmc.txt'), 'w').write(r2.stdout)
+            results = parse_text_results(r2.stdout)
+            if results is None or 'VERIFICATION' not in r2.stdout:
+                return 'UNDECIDED', 'cbmc output not JSON and text mode gave no result (crash / out of memory): ' + (r2.stdout[-300:] + r2.stderr[-300:]).replace('\n', ' '), [], log, dt
+            return 'DONE', '', results, log, dt
         results = None; errs = []
         for m in msgs:
             if 'result' in m: results = m['result']
@@ -333,6 +346,19 @@ class Unit:
                 p.status = 'UNDECIDED'
                 p.reason = 'vacuity guard: the end of %s is not reachable under its requires/invariants (contradictory contract?)' % p.target
         return p
+
+def parse_text_results(txt):
+    """'[name] line N description: STATUS' lines under 'file function' headers of cbmc's text output -> result records"""
+    res = []; cur_file = None; cur_fn = None; seen = False
+    for line in txt.splitlines():
+        m = re.match(r'^(\S.*) function (\S+)$', line)
+        if m and not line.startswith('['): cur_file, cur_fn = m.group(1), m.group(2); continue
+        m = re.match(r'^\[([^\]]+)\] (?:line (\d+) )?(.*): (SUCCESS|FAILURE|UNKNOWN|ERROR)$', line)
+        if m:
+            seen = True
+            res.append({'property': m.group(1), 'description': m.group(3), 'status': m.group(4),
+                        'sourceLocation': {'file': cur_file, 'line': m.group(2), 'function': cur_fn}})
+    return res if seen else None
 
 BUILTIN_OK = {'malloc', 'free', 'memcpy', 'memset', 'abort', 'exit'}
 
